@@ -27,8 +27,6 @@ def copy_root(body, op, depth=8):
         return p[0] if p else None
     l = p[0]
     for _ in range(depth):
-        if body.local_name(l):
-            return l
         ds = body.defs_of(l)
         if len(ds) != 1 or ds[0][1] == "term":
             return l
@@ -232,8 +230,6 @@ def _amount_root(body, o):
         return None
     l = p[0]
     for _ in range(6):
-        if body.local_name(l):
-            return l
         ds = body.defs_of(l)
         if len(ds) != 1 or ds[0][1] == "term":
             return l
